@@ -23,6 +23,12 @@ theorem iter_rel {τs τm : Type} (Rl : τs → τm → Prop) (cs : τs → Bool
     · simp only [hcs, if_true]; exact ih _ _ (hb a b h hcs)
     · simp only [hcs]; exact h
 
+/-- the result of a loop body that may throw, as an outcome-so-far (`none` = no exception) -/
+def passOf {ε τ : Type} (r : Except (ε × τ) τ) : Option ε × τ :=
+  match r with
+  | .error (e, a) => (some e, a)
+  | .ok a => (none, a)
+
 /-- a loop whose body may throw (`loopE`), against a `while` whose guard also tests the exception flag: `Rl (e?, a) b`
 relates the model outcome so far (`none` = still running) to the machine state -/
 theorem iterE_rel {τs τm ε : Type} (Rl : Option ε × τs → τm → Prop) (cs : τs → Bool) (cm : τm → Bool)
@@ -30,7 +36,7 @@ theorem iterE_rel {τs τm ε : Type} (Rl : Option ε × τs → τm → Prop) (
     (hc : ∀ a b, Rl (none, a) b → cm b = cs a)
     (hcE : ∀ e a b, Rl (some e, a) b → cm b = false)
     (hb : ∀ a b, Rl (none, a) b → cs a = true →
-      Rl (match bs a with | .error (e, a') => (some e, a') | .ok a' => (none, a')) (bm b)) :
+      Rl (passOf (bs a)) (bm b)) :
     ∀ fuel a b, Rl (none, a) b → Rl (loopE cs bs fuel a) (iter cm bm fuel b) := by
   intro fuel
   induction fuel with
@@ -46,7 +52,7 @@ theorem iterE_rel {τs τm ε : Type} (Rl : Option ε × τs → τm → Prop) (
       | error ea =>
         obtain ⟨e, a'⟩ := ea
         rw [hbs] at hb'
-        simp only at hb' ⊢
+        simp only [passOf] at hb' ⊢
         -- the flag is set: the `while` stops
         cases n with
         | zero => exact hb'
